@@ -431,6 +431,13 @@ def doc_pool():
     std = {"Type": Name("Font"), "Subtype": Name("Type1"), "BaseFont": Name("Helvetica")}
     pool["standard14-implicit-encoding"] = three_pages(std)
     pool["standard14-differences"] = three_pages(dict(std, Encoding={"Type": Name("Encoding"), "Differences": [65, Name("W"), Name("i"), Name("M")]}))
+    # fonts written directly into each page's resource dictionary (no object number): the same resource name, a different font on every page
+    objs = {1: {"Type": Name("Catalog"), "Pages": Ref(2)}, 2: {"Type": Name("Pages"), "Kids": [Ref(3), Ref(13), Ref(23)], "Count": 3}, 8: FD}
+    for k, (base, diff) in enumerate(((3, "alpha"), (13, "beta"), (23, "gamma"))):
+        f = dict(t1({"Type": Name("Encoding"), "BaseEncoding": Name("WinAnsiEncoding"), "Differences": [65, Name(diff)]}), Widths=[400 + 100 * k] * 95)
+        objs[base] = {"Type": Name("Page"), "Parent": Ref(2), "MediaBox": [0, 0, 300, 300], "Contents": Ref(base + 1), "Resources": {"Font": {"F1": f}}}
+        objs[base + 1] = Stream({}, ("BT /F1 10 Tf 20 %d Td (ABC) Tj ET" % (200 - 30 * k)).encode())
+    pool["direct-fonts-same-name-per-page"] = build(objs, 1)
     # composite fonts: a predefined CMap, and an embedded CMap that uses it and adds a range (use_cmap must copy)
     cid = {"Type": Name("Font"), "Subtype": Name("CIDFontType0"), "BaseFont": Name("Shared"), "CIDSystemInfo": {"Registry": "Adobe", "Ordering": "Japan1", "Supplement": 2},
            "FontDescriptor": Ref(8), "DW": 1000}
@@ -507,8 +514,8 @@ print(json.dumps(extract_sigs(pool[name], page_numbers=pages)))
 
 
 @bounded("call-histories-interleavings-caching-and-page-subsets", props=["C12"],
-         bound="pool of 12 three-page documents sharing object numbers, font name and encodings (WinAnsi with/without Differences, unknown base encoding with "
-               "Differences, implicit Standard, MacRoman with Differences, two standard-14 Helvetica fonts (implicit encoding / Differences) whose width table is the shared FONT_METRICS entry, Type0 with predefined CMap H, two Type0 fonts sharing one descendant, a horizontal and a vertical font of one character collection, Type0 with an embedded encoding CMap (pdfminer looks such a CMap up by name only: nothing decodes, but the lookup path runs), unbalanced q / text "
+         bound="pool of 13 three-page documents sharing object numbers, font name and encodings (WinAnsi with/without Differences, unknown base encoding with "
+               "Differences, implicit Standard, MacRoman with Differences, two standard-14 Helvetica fonts (implicit encoding / Differences) whose width table is the shared FONT_METRICS entry, direct (unnumbered) fonts of one resource name that differ from page to page, Type0 with predefined CMap H, two Type0 fonts sharing one descendant, a horizontal and a vertical font of one character collection, Type0 with an embedded encoding CMap (pdfminer looks such a CMap up by name only: nothing decodes, but the lookup path runs), unbalanced q / text "
                "state across pages). Reference = each document extracted alone in a fresh interpreter process (all pages, and its middle page alone in another fresh process: both must agree). quick: 60 random call histories of length 2..6, all "
                "ordered pairs interleaved page by page, caching off, every single page and page pair extracted separately, the same document three times; thorough: 6000 histories")
 def _(tier, seed):
